@@ -81,6 +81,9 @@ impl StdioInterpreter {
         let messages = analyzer.take_messages();
         let lines = analyzer.take_source_file_lines();
         self.interpreter = analyzer.into_interpreter();
+        // The loaded program comes with a brand new interpreter, which
+        // knows nothing about --warnings, --tracing or the random seed yet.
+        self.args.configure_interpreter(&mut self.interpreter);
         if self.args.skip_check {
             return Ok(());
         }
